@@ -106,3 +106,14 @@ Definition jax_ks_min_grad (rho : R) (x : list R) : list R :=
   let m := minl x in
   let s := sumR (map (fun v => exp (rho * (m - v))) x) in
   map (fun v => exp (rho * (m - v)) / s) x.
+
+(* ------------------------------------------------------------------ dKS / drho *)
+(* KSfunction.derivatives(...)[1] as written in the code:
+   dKS_dsum * dsum_drho  with  dsum_drho = sum(g_diff * exponents),  dKS_dsum = 1 / (rho * summation) *)
+Definition KS_drho_code (rho : R) (g : list R) : R :=
+  let m := maxl g in
+  1 / (rho * sumR (exponents rho m g)) * sumR (map (fun x => (x - m) * exp (rho * (x - m))) g).
+
+(* the derivative of KSfunction.compute with respect to rho (proved in ProofsRho.v) *)
+Definition KS_drho_true (rho : R) (g : list R) : R :=
+  KS_drho_code rho g - ln (sumR (exponents rho (maxl g) g)) / (rho * rho).
